@@ -125,6 +125,8 @@ def instances_for(tier):
     out += fam("A two-sided x P", I.family_A(True))
     out += fam("L two-sided x {unit,cap2,lectight}", I.family_L(True, ("unit", "cap2", "lectight")))
     out += fam("Q full quotas (structures 0,3)", q_family(True, (0, 3)))
+    out += fam("Q3: 3 students x 2 projects x 2 lecturers, strict lists, project quotas x heterogeneous lecturer (target,uq)",
+               I.family_Q3(False, maxuq=3 if tier == "thorough" else 2))
     out += fam("HR one-sided x P", I.family_HR(False, sizes=I.HR_SIZES[:6]))
     out += fam("HR two-sided x P", I.family_HR(True, sizes=I.HR_SIZES[:6]))
     if tier == "thorough":
